@@ -175,12 +175,26 @@ package clientgen
 //@   ensures uses_url: (count("P:url.") > old(count("P:url."))) <==> (len(pathParams) > 0 || ((httpMethod == "GET" || httpMethod == "DELETE") && len(queryParams) > 0))
 //@   loop 1 invariant count("P:url.") >= old(count("P:url.")) && ((count("P:url.") > old(count("P:url."))) <==> _i1 > 0)
 //@   loop 2 invariant count("P:url.") > old(count("P:url."))
+// ... and the request line is built from the values it is given (C03/C01: dataflow from the decided route to the emitted
+// text): the path literal is the full path, every path variable is substituted from the request field of that name, and
+// on a body-less verb every query parameter gets its encoding block
+//@   at-call "P:path := " requires path_as_given: line == "path := \"" + fullPath + "\""
+//@   ensures one_path_literal: count("P:path := ") == old(count("P:path := ")) + 1
+//@   at-call "P:path = strings.Replace(path, " requires variable_from_its_field: line == "path = strings.Replace(path, \"{" + param + "}\", url.PathEscape(fmt.Sprint(req." + snakeToUpperCamel(param) + ")), 1)"
+//@   loop 1 invariant count("P:path = strings.Replace(path, ") == old(count("P:path = strings.Replace(path, ")) + _i1
+//@   ensures every_variable_substituted: count("P:path = strings.Replace(path, ") == old(count("P:path = strings.Replace(path, ")) + len(pathParams)
+//@   at-call generateQueryParamEncoding requires in_order: arg1 == queryParams[count("generateQueryParamEncoding") - old(count("generateQueryParamEncoding"))]
+//@   loop 2 invariant count("generateQueryParamEncoding") == old(count("generateQueryParamEncoding")) + _i2
+//@   ensures every_query_parameter_encoded: (httpMethod == "GET" || httpMethod == "DELETE") ==> count("generateQueryParamEncoding") == old(count("generateQueryParamEncoding")) + len(queryParams)
 
 // the request code of one RPC mentions bytes exactly when the RPC sends a body
 //@ func (g *Generator) generateRPCMethodRequest(gf *protogen.GeneratedFile, cfg *rpcMethodConfig)
 //@   requires cfg != nil
 //@   modifies *
 //@   ensures uses_bytes: (count("P:bytes.") > old(count("P:bytes."))) <==> cfg.hasBody
+//@   at-call "P:http.NewRequestWithContext(ctx, " requires verb_as_configured: line == "httpReq, err := http.NewRequestWithContext(ctx, \"" + cfg.httpMethod + "\", reqURL, " + ite(cfg.hasBody, "bytes.NewReader(body))", "nil)")
+//@   ensures one_request: count("P:http.NewRequestWithContext(ctx, ") == old(count("P:http.NewRequestWithContext(ctx, ")) + 1
+//@   ensures body_marshalled_iff_body_verb: (count("P:c.marshalRequest(req, contentType)") > old(count("P:c.marshalRequest(req, contentType)"))) <==> cfg.hasBody
 
 // the import block lists net/url and bytes exactly when asked to
 //@ func (g *Generator) writeImports(gf *protogen.GeneratedFile, needsBytes bool, needsURL bool)
@@ -194,6 +208,18 @@ package clientgen
 //@   at-call fileNeedsRequestBody requires same_file: arg0 == file
 //@   at-call fileNeedsURLImport requires same_file: arg0 == file
 //@   at-call writeImports requires deciders: arg1 == lastRetAs("fileNeedsRequestBody", bool) && arg2 == lastRetAs("fileNeedsURLImport", bool) && count("fileNeedsURLImport") == old(count("fileNeedsURLImport")) + 1 && count("fileNeedsRequestBody") == old(count("fileNeedsRequestBody")) + 1
+
+// the Go field name derived from a path variable is a function of the variable's name alone
+//@ func snakeToUpperCamel(s string) (r string)
+//@   pure
+
+// one RPC method is emitted from the configuration decided for that RPC (and for no other)
+//@ func (g *Generator) generateRPCMethod(gf *protogen.GeneratedFile, file *protogen.File, service *protogen.Service, method *protogen.Method) (err error)
+//@   requires service != nil && method != nil
+//@   modifies *
+//@   at-call generateRPCMethodURLBuilding requires own_config: arg1 != nil && arg1.httpMethod == spec.verbOf(method) && arg1.fullPath == spec.clientPath(service, method) && arg1.pathParams == spec.pathVars(method) && arg1.queryParams == annotations.GetQueryParams(method.Input) && (arg1.hasBody <==> spec.isBodyVerb(spec.verbOf(method)))
+//@   at-call generateRPCMethodRequest requires own_config: arg1 != nil && arg1.httpMethod == old(spec.verbOf(method)) && (arg1.hasBody <==> spec.isBodyVerb(old(spec.verbOf(method))))
+//@   ensures url_and_request_once: count("generateRPCMethodURLBuilding") == old(count("generateRPCMethodURLBuilding")) + 1 && count("generateRPCMethodRequest") == old(count("generateRPCMethodRequest")) + 1
 
 // the URL code is emitted from the RPC's own configuration
 //@ func (g *Generator) generateRPCMethodURLBuilding(gf *protogen.GeneratedFile, cfg *rpcMethodConfig)
